@@ -222,7 +222,7 @@ def p_address_2(t):
 def p_address_3(t):
     '''address : SEGMENT'''
     # e.g. "push es"
-    t[0] ={x86_afs.reg_dict[t[1]]:1, x86_afs.size : x86_afs.u32}
+    t[0] ={x86_afs.reg_dict[t[1].lower()]:1, x86_afs.size : x86_afs.u32}
 
 def p_address_4(t):
     '''address : opt_seg_colon expression'''
@@ -279,7 +279,7 @@ def p_PTRSIZE(t):
 
 def p_opt_seg_colon_1(t):
     '''opt_seg_colon : SEGMENT COLON '''
-    t[0] = {x86_afs.segm:x86_afs.reg_sg.index(t[1])}
+    t[0] = {x86_afs.segm:x86_afs.reg_sg.index(t[1].lower())}
 
 def p_expression_1(t):
     '''expression : MINUS expression %prec UMINUS'''
@@ -334,12 +334,12 @@ def p_register_1(t):
 
 def p_register_2st(t):
     '''register : REGISTER LPAREN NUMBER RPAREN'''
-    t[0] = t[1] + "%d"%t[3]
+    t[0] = t[1].lower() + "%d"%t[3]
     t[0] ={x86_afs.reg_dict[t[0]]:1, x86_afs.size : x86_afs.f32}
 
 def p_register_3st(t):
     '''register : PERCENT REGISTER LPAREN NUMBER RPAREN'''
-    t[0] = t[2] + "%d"%t[4]
+    t[0] = t[2].lower() + "%d"%t[4]
     t[0] ={x86_afs.reg_dict[t[0]]:1, x86_afs.size : x86_afs.f32}
 
 def p_symbol_0(t):
